@@ -53,7 +53,10 @@ void run_width(const Case &c, pbt::Ctx &ctx) {
     std::string all = c.prefix + c.text + c.terminator;
     Char_T     *buf = static_cast<Char_T *>(malloc(all.size() * sizeof(Char_T) + (all.empty() ? 1 : 0)));
     for (size_t i = 0; i < all.size(); ++i) {
-        buf[i] = Char_T((unsigned char)all[i]);
+        // a byte above 0x7F stands, in the wider instantiations, for the unit U+0100 | low seven bits: a non-ASCII unit whose low byte
+        // is an ASCII character (U+0130 ends in '0', U+012E in '.', U+0165 in 'e') - it is not part of any numeral
+        const unsigned char ch = (unsigned char)all[i];
+        buf[i]                 = (sizeof(Char_T) > 1 && ch >= 0x80) ? Char_T(0x0100U | (ch & 0x7FU)) : Char_T(ch);
     }
     QNumber64   num;
     SizeT       offset = SizeT(c.prefix.size());
@@ -206,7 +209,9 @@ Gen<std::string> exp_gen(int lo, int hi) {
 }
 
 Gen<Case> finish(Gen<std::string> text, std::string cls, int malformed = 0) {
-    return gen::map(gen::tuple(std::move(text), pbt::pick<std::string>({"", "", ",", "]", "}", " "}), pbt::pick<int>({1, 1, 2, 4}),
+    return gen::map(gen::tuple(std::move(text),
+                               pbt::pick<std::string>({"", "", ",", "]", "}", " ", "", ",", "]", " ", "\xB0", "\xB7", "\xB9", "\xAE", "\xE5", "\xC5", "\xAB", "\xAD", "\xB0,"}),
+                               pbt::pick<int>({1, 1, 2, 4}),
                                pbt::pick<std::string>({"", "", "[", "[ 1,", "{\"a\":"})),
                     [cls, malformed](std::tuple<std::string, std::string, int, std::string> t) {
                         Case c;
@@ -299,6 +304,21 @@ Gen<Case> gen_case() {
                                      return s;
                                  }),
                         "long-digits");
+    // 5c numerals thousands of characters long whose written exponent compensates their own zeros (0.000...0d e+N, d000...0 e-N):
+    // the written exponent is far outside the double range, the value is not
+    auto compensated = finish(gen::map(gen::tuple(sign_gen(), pbt::pick<int>({300, 998, 9995, 9999, 10000, 10001, 12345, 65535, 65537, 100000}), digits_gen(1, 20, true),
+                                                  pbt::range<int>(-30, 30), pbt::range<int>(0, 3)),
+                                       [](std::tuple<std::string, int, std::string, int, int> t) {
+                                           const int   z = std::get<1>(t);
+                                           std::string d = std::get<2>(t);
+                                           const int   k = std::get<3>(t);
+                                           const char *es[] = {"e", "E", "e+", "E+"};
+                                           if (std::get<4>(t) & 1) {
+                                               return std::get<0>(t) + "0." + std::string(size_t(z), '0') + d + es[std::get<4>(t)] + std::to_string(z + k);
+                                           }
+                                           return std::get<0>(t) + d + std::string(size_t(z), '0') + ((std::get<4>(t) & 2) ? "e-" : "E-") + std::to_string(z + (k < 0 ? -k : k));
+                                       }),
+                              "exponent-compensates-length");
     // 5b leading fractional zeros
     auto leadzeros = finish(gen::map(gen::tuple(sign_gen(), pbt::range<int>(1, 300), digits_gen(1, 40, true)),
                                      [](std::tuple<std::string, int, std::string> t) {
@@ -436,7 +456,7 @@ Gen<Case> gen_case() {
                      return std::get<0>(t) + m;
                  }),
         "malformed", 1);
-    return gen::oneOf(ints, bounds, decimals, decimals, intexp, longs, leadzeros, spelled, spelled, ties, carry, nines, padded, overflow, overflow_plain, subnormal,
+    return gen::oneOf(ints, bounds, decimals, decimals, intexp, longs, leadzeros, spelled, spelled, ties, carry, nines, padded, compensated, overflow, overflow_plain, subnormal,
                       zeros, malformed);
 }
 
@@ -480,6 +500,10 @@ struct H {
         }
         c.width      = w[(b0 >> 4) & 3];
         c.terminator = tm[(b0 >> 6) & 3];
+        if (b1 & 128) { // a non-ASCII unit whose low byte is a numeral character
+            static const char *al[] = {"\xB0", "\xB5", "\xB9", "\xAE", "\xE5", "\xC5", "\xAB", "\xAD"};
+            c.terminator            = al[(b1 >> 3) & 7];
+        }
         c.prefix     = (b1 & 64) ? "[1, " : "";
         c.malformed  = 0;
         c.cls        = "coverage-guided";
@@ -509,6 +533,7 @@ struct H {
 
     static void run(const Case &c, pbt::Ctx &ctx) {
         ctx.label("class:" + c.cls);
+        ctx.label("terminator:non-ascii-unit-with-ascii-low-byte", !c.terminator.empty() && (unsigned char)c.terminator[0] >= 0x80 && c.width > 1);
         if (!c.malformed) {
             // numerals whose correctly rounded value is zero although the mantissa is not lie below the smallest
             // subnormal: outside the property's quantifier
